@@ -11,7 +11,7 @@ from ..cunits import run_cjobs
 from ..machine import run_units, trap_kind
 from .args import parse
 
-MODULES = ["harness.corpus.memory", "harness.corpus.basic"]
+MODULES = ["harness.corpus.memory", "harness.corpus.basic", "harness.corpus.indexmat"]
 OPS = ["lift_alloc", "sink_alloc", "autolift_alloc", "reuse_buffer", "stage_mem", "inline_window", "expand_dim",
        "resize_dim", "divide_dim", "mult_dim", "unroll_buffer", "delete_buffer", "bind_expr", "fission", "fuse",
        "reorder_stmts", "divide_loop", "unroll_loop", "inline", "specialize", "lift_scope", "add_loop", "cut_loop"]
